@@ -29,6 +29,12 @@ TEXT = ["x", "ab", "é", "日本", "😀", "\r", "\r\n", "\n", " ", "a\rb", "end
 PLAIN_TEXT = ["x", "ab", "é", "日本", "😀", "\n", " ", "ß", "-", "<p>", "tail ", "naïve"]
 STRS = ["", "a", "héllo", "日本語", "line\r\nline", "cr\rcr", "😀😀", "plain ascii text", "ü"]
 
+# code points whose UTF-8 size is easy to get wrong: lone surrogates (no strict encoding, 3 bytes
+# with surrogatepass), astral characters (4 bytes, 2 UTF-16 units), combining marks, NUL, U+FFFF
+AWK_TEXT = ["\ud800", "\udfff", "a\udc80b", "𝄞", "e\u0301", "\uffff", "\x00", "\U0010ffff", "\ud83d"]
+AWK_STRS = ["\ud800", "\udc00\ud800", "x\udfffy", "𝄞𝄞", "e\u0301e\u0301", "\uffff", "a\x00b", "\U0010ffff",
+            "\ud83d", "\ud800" * 7]
+
 MAXPROD = 360
 MAXWORK = 1400
 
@@ -134,11 +140,13 @@ KINDS = ("text", "out", "assign", "cap", "if", "loop", "call", "macro")
 
 class NestGen:
     def __init__(self, rng: random.Random, profile: str = "nest", cr: bool = True,
-                 allow_break: bool = True):
+                 allow_break: bool = True, awkward: bool = False):
         self.r = rng
         self.profile = profile
+        self.awkward = awkward
         self.w = PROFILES[profile]
-        self.text = TEXT if cr else PLAIN_TEXT
+        self.cr = cr
+        self.text = (TEXT if cr else PLAIN_TEXT) + (AWK_TEXT if awkward else [])
         self.allow_break = allow_break
         self.data: dict[str, Any] = {}
         self.iso: list[bool] = []
@@ -160,8 +168,13 @@ class NestGen:
             d[n] = r.choice([0, 1, 2, 2, 3, 3, 4, 5, 6])
         for n in ("xs", "ys"):
             d[n] = [r.choice([1, 2, 3, "a", "é", "日"]) for _ in range(r.choice([0, 1, 2, 3, 3, 4, 5]))]
+        plain = not self.cr
         for n in ("s1", "s2"):
-            d[n] = r.choice(STRS if self.text is TEXT else [s for s in STRS if "\r" not in s])
+            d[n] = r.choice([s for s in STRS if "\r" not in s] if plain else STRS)
+        if self.awkward:
+            d[r.choice(["s1", "s2"])] = r.choice(AWK_STRS)
+            if r.random() < 0.5:
+                d[r.choice(["xs", "ys"])] = [r.choice(AWK_STRS + ["a", 1]) for _ in range(r.randint(1, 5))]
         d["b1"] = r.choice([True, False])
         return d
 
@@ -684,6 +697,109 @@ class IntrGen:
             root.append(["cap", "c2", [self.t(), ["o", "a1"]]])
             root.append(["o", "c2"])
         return {"root": root, "partials": dict(sorted(partials.items())), "data": self.data, "has_break": True}
+
+
+# --------------------------------------------------------------------------- varying lengths
+
+
+class VaryGen:
+    """Nests whose inner loop length depends on the outer iteration, across every boundary
+    that copies the context (render, render-for, call, overridden block, block.super) and
+    through include for contrast.  The inner length grows with the outer variable
+    (`n: i`, `n: forloop.index`, `(1..i)`, `n | times: k`, data sliced by `limit: i`) or
+    the inner partial is only reached late (`if forloop.last`, `if i > k`), so a count
+    taken in the first outer iteration says nothing about the later ones."""
+
+    BOUNDARIES = ("render", "render", "renderfor", "call", "block", "super", "include", "includefor")
+
+    def __init__(self, rng: random.Random):
+        self.r = rng
+        self.mark_i = 0
+        self.data: dict[str, Any] = {}
+
+    def mark(self) -> list[Any]:
+        m = MARKS[self.mark_i % len(MARKS)]
+        self.mark_i += 1
+        return ["t", m]
+
+    def inner(self, nvar: str, depth2: bool) -> list[Any]:
+        """Statements looping a number of times that depends on *nvar*."""
+        r = self.r
+        body: list[Any] = [self.mark(), ["o", "j"]]
+        if depth2:
+            body.append(["for", "h", f"(1..{r.randint(1, 3)})", "", [self.mark()], None])
+        c = r.random()
+        if c < 0.35:
+            return [["for", "j", f"(1..{nvar})", "", body, None]]
+        if c < 0.6:
+            k = r.choice([2, 3, 5, 10])
+            return [["a", "mx", f"{nvar} | times: {k}"], ["for", "j", "(1..mx)", "", body, None]]
+        if c < 0.8:
+            self.data["big"] = list(range(1, r.randint(6, 12) + 1))
+            return [["for", "j", "big", f" limit: {nvar}", body, None]]
+        k = r.randint(1, 3)
+        return [["for", "j", f"({k}..{nvar})", "", body, None]]
+
+    def late(self, outer: str, A: int) -> str:
+        r = self.r
+        return r.choice(["forloop.last", f"{outer} > {r.randint(1, max(1, A - 1))}", f"{outer} == {A}",
+                         f"forloop.index >= {max(1, A - 1)}"])
+
+    def program(self) -> dict[str, Any]:
+        r = self.r
+        self.data = {}
+        A = r.randint(3, 10)
+        outer = "i"
+        boundary = r.choice(self.BOUNDARIES)
+        arg = r.choice([outer, outer, "forloop.index"])
+        depth2 = r.random() < 0.25
+        guard = r.random() < 0.15  # the inner partial is only reached in late iterations
+        partials: dict[str, list[Any]] = {}
+        fixed = r.randint(4, 12)
+
+        def inner_for(nvar: str) -> list[Any]:
+            if guard:
+                # a fixed, large inner loop reached late
+                return [["for", "j", f"(1..{fixed})", "", [self.mark(), ["o", "j"]], None]]
+            return self.inner(nvar, depth2)
+
+        root: list[Any]
+        pre: list[Any] = [["t", "["]]
+        if boundary == "render":
+            partials["row"] = [self.mark(), *inner_for("n")]
+            call: list[Any] = ["ren", "row", "", "", "", [["n", arg]]]
+        elif boundary == "renderfor":
+            partials["row"] = [self.mark(), *inner_for("n")]
+            call = ["ren", "row", "for", f"(1..{r.randint(1, 2)})", "v", [["n", arg]]]
+        elif boundary == "include":
+            partials["row"] = [self.mark(), *inner_for("n")]
+            call = ["inc", "row", "", "", "", [["n", arg]]]
+        elif boundary == "includefor":
+            partials["row"] = [self.mark(), *inner_for("n")]
+            call = ["inc", "row", "for", f"(1..{r.randint(1, 2)})", "v", [["n", arg]]]
+        elif boundary == "call":
+            pre.append(["mac", "mrow n", inner_for("n")])
+            call = ["call", f"mrow {arg}"]
+        else:
+            call = ["blk", "cell", inner_for(outer) if boundary == "super" else [["t", "d"]]]
+        wrapped: list[Any] = [call]
+        if guard:
+            wrapped = [["if", self.late(outer, A), [call], None]]
+        loop = ["for", outer, f"(1..{A})", "", [self.mark(), ["o", outer], *wrapped], None]
+        if boundary in ("block", "super"):
+            partials["base"] = [*pre, loop, ["t", "]"]]
+            if boundary == "block":
+                over = inner_for(outer)
+            else:
+                over = [["t", "<"], ["o", "block.super"], ["t", ">"]]
+            root = [["ext", "base"], ["blk", "cell", over]]
+        else:
+            root = [*pre, loop, ["t", "]"]]
+            if r.random() < 0.3:
+                # a uniform sibling nest for contrast
+                root.append(["for", "s2", f"(1..{r.randint(2, 4)})", "",
+                             [self.mark(), ["for", "t2", f"(1..{r.randint(2, 4)})", "", [self.mark()], None]], None])
+        return {"root": root, "partials": dict(sorted(partials.items())), "data": self.data, "has_break": False}
 
 
 # --------------------------------------------------------------------------- shrink
